@@ -27,16 +27,17 @@ type CArg struct {
 }
 
 type NativeCall struct {
-	Fn      string
-	RetC    string // "void", "ddpint", "ddpfloat", "ddpbyte", "ddpbool", "ddpchar"
-	Args    []CArg
-	DDPSrc  string
-	Opt     int
-	ExtraC  string // additional C definitions (e.g. extern callbacks)
-	Name    string
-	Objects []string
-	InitFn  string // module initialiser to call first (globals)
-	Track   bool   // wrap ddp_reallocate: report wrong sizes, foreign releases and blocks left at the end
+	Fn       string
+	RetC     string // "void", "ddpint", "ddpfloat", "ddpbyte", "ddpbool", "ddpchar"
+	Args     []CArg
+	DDPSrc   string
+	Opt      int
+	ExtraC   string // additional C definitions (e.g. extern callbacks)
+	Name     string
+	Objects  []string
+	PostCall string // C statement executed after the call (e.g. a report function)
+	InitFn   string // module initialiser to call first (globals)
+	Track    bool   // wrap ddp_reallocate: report wrong sizes, foreign releases and blocks left at the end
 }
 
 type NativeResult struct {
@@ -191,6 +192,9 @@ static void vreport(void) { int live = 0; for (int i = 0; i < vnb; i++) if (VB[i
 		fmt.Fprintf(&sb, "\t%s r = %s;\n\tprintf(\"RET %%llx\\n\", (unsigned long long)(uint64_t)r);\n", nc.RetC, call)
 	}
 	sb.WriteString(dump.String())
+	if nc.PostCall != "" {
+		sb.WriteString("\t" + nc.PostCall + "\n")
+	}
 	if nc.Track {
 		for i, a := range nc.Args {
 			v := fmt.Sprintf("a%d", i)
